@@ -29,6 +29,7 @@ import (
 	"github.com/ethereum/go-ethereum/ethdb"
 	"github.com/ethereum/go-ethereum/ethdb/memorydb"
 	"github.com/ethereum/go-ethereum/internal/verif/mc"
+	"github.com/ethereum/go-ethereum/log"
 	"github.com/ethereum/go-ethereum/rlp"
 	"github.com/ethereum/go-ethereum/trie"
 	"github.com/ethereum/go-ethereum/trie/trienode"
@@ -243,6 +244,10 @@ type c17Cfg struct {
 	Buffer int    `json:"buffer"`   // WriteBufferSize
 	Trie   int64  `json:"trienode"` // TrienodeHistory: -1 off, otherwise limit
 	Index  bool   `json:"index,omitempty"` // history indexing enabled (used by the C18 harness)
+	// RealIniter: start the indexers through Config.EnableStateIndexing (background initer goroutine). Otherwise the
+	// indexers are attached in the "initial indexing finished" state: the genuine start-up races its first heartbeat
+	// against the sync-state goroutine and, when it loses, only finishes at the next heartbeat 15 seconds later.
+	RealIniter bool `json:"real_initer,omitempty"`
 }
 
 type c17Inst struct {
@@ -269,9 +274,15 @@ func c17NewInst(cfg c17Cfg) *c17Inst {
 		WriteBufferSize:     cfg.Buffer,
 		NoAsyncFlush:        true,
 		NoAsyncGeneration:   true,
-		EnableStateIndexing: cfg.Index,
+		EnableStateIndexing: cfg.Index && cfg.RealIniter,
 		NoHistoryIndexDelay: true,
 	}, false)
+	if cfg.Index && !cfg.RealIniter {
+		db.stateIndexer = c17AttachIndexer(disk, db.stateFreezer, typeStateHistory)
+		if db.trienodeFreezer != nil {
+			db.trienodeIndexer = c17AttachIndexer(disk, db.trienodeFreezer, typeTrienodeHistory)
+		}
+	}
 	return &c17Inst{cfg: cfg, kv: kv, disk: disk, db: db, roots: []common.Hash{types.EmptyRootHash}, worlds: []c17World{{}}}
 }
 
@@ -845,3 +856,28 @@ func TestVerif_C17(t *testing.T) {
 }
 
 var c17CacheSize = 256 * 1024
+
+// c17AttachIndexer builds a historyIndexer for an empty history whose initial indexing run is already finished
+// (what indexIniter.index does for an empty freezer: store the metadata with Last=0 and close done). All later
+// indexing / un-indexing / pruning goes through the real synchronous paths (extend, shorten, indexSingle, ...).
+func c17AttachIndexer(disk ethdb.Database, freezer ethdb.AncientStore, typ historyType) *historyIndexer {
+	storeIndexMetadata(disk, typ, 0)
+	done := make(chan struct{})
+	close(done)
+	return &historyIndexer{
+		initer: &indexIniter{
+			state:     &initerState{state: stateSynced, disk: disk, term: make(chan struct{})},
+			disk:      disk,
+			freezer:   freezer,
+			interrupt: make(chan *interruptSignal),
+			done:      done,
+			closed:    make(chan struct{}),
+			typ:       typ,
+			log:       log.New("type", typ.String()),
+		},
+		pruner:  newIndexPruner(disk, typ),
+		typ:     typ,
+		disk:    disk,
+		freezer: freezer,
+	}
+}
